@@ -1326,6 +1326,17 @@ def run_workflow_case(drv, rng, idx):
                         if not ceq(counts_of(rw), cscale(c1, k3)):
                             ctx.violation("est.repeat", f"Pow(op, {k3}) of an operator with the default power rule is not {k3} x estimate(op): "
                                                         f"{cdiff(counts_of(rw), cscale(c1, k3))}", case=dict(witj, k=k3), mech="repeat:pow")
+                    # power of a power: Pow(Pow(op, a), b) repeats op a*b times (pairs chosen so that a*b != a+b)
+                    ka, kb = pick(rng, [(2, 3), (3, 2), (1, 4), (4, 1), (3, 3), (0, 3), (2, 5)])
+                    nspec = {"c": "Pow", "kw": {"base_op": {"c": "Pow", "kw": {"base_op": dict(spec, w=None), "pow_z": ka}, "w": None}, "pow_z": kb}}
+                    if not any(f"Pow({rootsA[j][0].name}, {z})" in (gate_set or ()) for z in (ka, kb, ka * kb)) and "Pow" not in str(gate_set or ()):
+                        sn, rn, _ = drv.est(f"estimate(Pow(Pow(op, {ka}), {kb}))", drv.qfunc([nspec]), dict(witj, k=(ka, kb)), z0=z0, a0=a0, **kw)
+                        if sn == "ok":
+                            ctx.ev("est.repeat")
+                            ctx.count("est.repeat.nested_pow")
+                            if not ceq(counts_of(rn), cscale(c1, ka * kb)):
+                                ctx.violation("est.repeat", f"Pow(Pow(op, {ka}), {kb}) of an operator with the default power rule is not {ka * kb} x estimate(op): "
+                                                            f"{cdiff(counts_of(rn), cscale(c1, ka * kb))}", case=dict(witj, k=(ka, kb)), mech="repeat:pow-of-pow")
 
     # -------------------------------------------------------------------- independent interpreter (pure workflows)
     if pure and all(is_pure(s) for s in A + B):
